@@ -11,7 +11,7 @@ from ..dep import DefUse
 from ..flow import o_sens, o_state, K_LIST, K_TUPLE, UNK
 from ..model import stmt_key, AnalysisError, FuncInfo, ClassInfo
 from ..report import rule, Collector
-from .common import RuleCtx, where_of, line_of, hits, dedupe, chain
+from .common import expand_names, RuleCtx, where_of, line_of, hits, dedupe, chain
 from .eff import module_methods
 from .fresh import _af
 
@@ -1061,11 +1061,14 @@ def r_clone_overhang(ctx: RuleCtx, col: Collector):
         for n in ast.walk(fn):
             if isinstance(n, ast.While):
                 for x in ast.walk(n):
-                    if isinstance(x, ast.AugAssign) and isinstance(x.target, ast.Name):
+                    if isinstance(x, ast.AugAssign) and isinstance(x.target, ast.Name) and isinstance(x.op, (ast.Add, ast.Sub)):
                         adv = (x.target.id, "+" if isinstance(x.op, ast.Add) else "-", norm(x.value))
-                    if isinstance(x, ast.Assign) and isinstance(x.value, ast.BinOp) and isinstance(x.value.op, ast.Sub) \
-                            and isinstance(x.targets[0], ast.Subscript):
-                        sup = (norm(x.value.left), norm(x.value.right))
+                if adv is not None:
+                    # the supporting layer: <layer index> - <step>, wherever it is formed (index store or a local)
+                    for x in ast.walk(n):
+                        if isinstance(x, ast.Assign) and isinstance(x.value, ast.BinOp) and isinstance(x.value.op, ast.Sub) \
+                                and norm(x.value.left) == adv[0]:
+                            sup = (norm(x.value.left), norm(x.value.right))
         return adv, sup
     radv, rsup = sweep(resp.node)
     sadv, ssup = sweep(sens.node)
@@ -1106,8 +1109,8 @@ def r_same_point(ctx: RuleCtx, col: Collector):
                     if isinstance(x, ast.Call) and isinstance(x.func, ast.Attribute) and isinstance(x.func.value, ast.Name) \
                             and x.func.value.id == selfn and m.resolve_call(f0, x, concrete=c):
                         for a in x.args:
-                            v = an.eval(a, dict(env))
-                            base = a
+                            # a view taken beforehand and named (xa = x[self.select]; helper(xa)) is that view
+                            base = expand_names(f0.node, a)
                             idx = []
                             while isinstance(base, ast.Subscript):
                                 idx.append(norm(base.slice).replace(selfn + ".", "self."))
